@@ -81,6 +81,7 @@ type dbSession struct {
 	Knobs   schedKnobs `json:"knobs"`
 	NoClose bool       `json:"no_close,omitempty"`
 	RelPath bool       `json:"rel_path,omitempty"` // open the database by a relative base path
+	Symlink bool       `json:"symlink,omitempty"`  // open the database through a symbolic link to its directory
 }
 
 type dbCase struct {
@@ -271,6 +272,17 @@ func (r *dbRunner) runSession(si int, s dbSession) (res sessionResult) {
 			if s.RelPath && len(s.Clients) > 0 && len(s.Clients[0])%2 == 0 {
 				base = "./" + base
 			}
+		}
+		if s.Symlink && !s.RelPath {
+			// a deployment that reaches its data directory through a symbolic link (/data -> /mnt/disk1/db)
+			link := r.dir + ".lnk"
+			if _, err := os.Lstat(link); err != nil {
+				if err := os.Symlink(r.dir, link); err != nil {
+					panic(err)
+				}
+			}
+			w.Alias = link
+			base = link
 		}
 		db, err := simpledb.NewSimpleDB(base, s.Opts.options()...)
 		if err != nil {
